@@ -527,8 +527,11 @@ Proof.
     simpl in Hall. apply andb_true_iff in Hall. destruct Hall as (H0 & Hr).
     assert (sv_seq v0 = seq) as ->.
     { destruct cs as [|c0 r0]; [discriminate|]. simpl in E. inversion E. reflexivity. }
-    apply andb_true_intro. split; [unfold seq; destruct (1 <? cnt); reflexivity|].
-    simpl. rewrite H0. exact Hr.
+    assert (Z.of_nat (length (v0 :: vs)) = cnt) as Hl by (rewrite <- E, length_views; exact Hn).
+    apply andb_true_intro. split; [apply andb_true_intro; split|].
+    + unfold seq; destruct (1 <? cnt); reflexivity.
+    + simpl. rewrite H0. exact Hr.
+    + rewrite Hl. unfold seq. destruct (Z.ltb_spec 1 cnt); destruct (Z.leb_spec cnt 1); try lia; reflexivity.
   - (* fill *)
     apply fill_views; [apply dec_ok_digit; lia|apply dec_ok_digit; lia|lia].
   - (* concat *)
